@@ -100,12 +100,17 @@ def diagnosis (o : Op) : String :=
   | .hang why => " [hang: " ++ why ++ "]"
   | _ => ""
 
-/-- BMP RLE files may legitimately leave pixels untouched (delta / early end-of-bitmap escapes) -/
-def isBmpRle (o : Op) : Bool :=
-  o.fmt == .bmp &&
-  match runRaw .bmp o.dev o.bytes { o.st with entry := .info } with
-  | .ok (img, _) => (img.hdr.getD 3 0 == 1 || img.hdr.getD 3 0 == 2)
-  | _ => false
+/-- the unwritten-pixels clause is not applied to BMP RLE files (delta / early end-of-bitmap escapes legitimately
+    leave pixels untouched) nor to a caller's view larger than the region read (pixels outside it stay the caller's) -/
+def unwrittenExempt (o : Op) : Bool :=
+  match runRaw o.fmt o.dev o.bytes { o.st with entry := .info } with
+  | .ok (img, _) =>
+    let w := img.hdr.getD 0 0; let h := img.hdr.getD 1 0
+    let dimx := if o.st.dw == 0 then w else o.st.dw
+    let dimy := if o.st.dh == 0 then h else o.st.dh
+    (o.fmt == .bmp && (img.hdr.getD 3 0 == 1 || img.hdr.getD 3 0 == 2)) ||
+    (o.st.entry == .view && (o.st.vw ≠ dimx || o.st.vh ≠ dimy))
+  | _ => true
 
 /-- the Spec of C11 evaluated on the implementation's observation -/
 def judge (op obs : String) : String :=
@@ -127,7 +132,7 @@ def judge (op obs : String) : String :=
           | .info | .scan => "ok"
           | _ =>
             -- ok w h hashA hashB ext=..
-            if rest.length ≥ 4 && rest.getD 2 "" ≠ rest.getD 3 "" && !isBmpRle o then "fail unwritten-pixels-returned" ++ diagnosis o
+            if rest.length ≥ 4 && rest.getD 2 "" ≠ rest.getD 3 "" && !unwrittenExempt o then "fail unwritten-pixels-returned" ++ diagnosis o
             else "ok"
       else "fail unknown-observation"
 
